@@ -38,7 +38,8 @@ CHECKS.update({
         design_ref="DESIGN.md 3.3, 4, 6 (C09)", note=EDIT_NOTE, technique=EDIT_TECH),
     "C19": dict(category="model_checking",
         text="Same state graphs as C09: at every reachable state every rejected-request action (unknown atom/bond, self bond, bad element, "
-             "wrong reaction label, several/no centres, descriptor on unknown centre, delete atom_type) and every lookup about absent atoms "
+             "wrong reaction label through add_bond / set_bond_attribute / add_formed|broken|fleeting_bond, a renaming that merges two atoms, a bond-order "
+             "matrix with a diagonal entry, several/no centres, descriptor on unknown centre, delete atom_type) and every lookup about absent atoms "
              "or bonds is fired; the spec demands an exception (any type) resp. raise-or-negative answer and an identical full projection. "
              "Random histories inject ill-formed requests and are validated by TLC.",
         design_ref="DESIGN.md 3.3, 6 (C19)", note=EDIT_NOTE, technique=EDIT_TECH + "; fault enumeration at every reachable state"),
@@ -52,13 +53,16 @@ CHECKS.update({
     "C11": dict(category="model_checking",
         text="Every injective partial renaming over the universe plus a fresh id (keys that are not atoms included) is applied in place and "
              "into a copy from every seed state; results must equal Relabel(g,m) of the spec, the source of a copy must not move, and the "
-             "walk continues with follow-up queries, edits, == and hash on the relabelled graph. Random total/partial renamings on 10-30 "
+             "walk continues with follow-up queries, edits, == and hash and with a second derivation (reactant, product, reverse, JSON, copy, "
+             "enantiomer) on the relabelled graph; seeds with several descriptors on neighbouring keys (swaps, shifts). Random total/partial renamings on 10-30 "
              "atom graphs are validated by TLC.",
         design_ref="DESIGN.md 6 (C11)", note=EDIT_NOTE, technique=EDIT_TECH),
     "C17": dict(category="model_checking",
         text="For every seed graph of all four classes: subgraph for subsets given as list, set, tuple and one-shot iterator; "
              "connected_components against the spec's reachability-based Components; compose of component subgraphs; compose of overlapping "
-             "pieces in both orders (later wins) and one further edit on the result; all compared with Subgraph/Compose of the spec. "
+             "pieces in both orders (later wins; stereo changes merged per change) and one further edit on the result; all compared with "
+             "Subgraph/Compose of the spec; the cover law (a graph composed with one of its induced subgraphs is the graph again) is an action "
+             "property of MC_Edit; subsets also as numpy arrays, pieces also as one-shot iterators. "
              "Random covers on larger graphs validated by TLC.",
         design_ref="DESIGN.md 6 (C17)", note=EDIT_NOTE, technique=EDIT_TECH),
 })
@@ -134,7 +138,8 @@ CHECKS.update({
              "tetrahedral, square-planar, trigonal-bipyramidal and octahedral figures x the 24 lattice rotations x reflection, with the "
              "handedness convention derived from the class docstrings and every spelling of the expected descriptor; each case is "
              "realised with per-element bond lengths, noise, a random rigid motion and a shuffled hand-over order and goes through "
-             "atom_stereo_from_coords and StereoMolGraph.from_geometry. Metamorphic part: the XYZ corpus and reaction triples under "
+             "atom_stereo_from_coords and StereoMolGraph.from_geometry. Metamorphic part: the XYZ corpus, distorted four- and six-coordinate "
+             "centres (see-saw, umbrella, trigonal prism, random), alkene templates with equal and unequal angles, and reaction triples under "
              "rigid motion / atom permutation / reflection, decided by TLC (Obs_Meta) with the known atom correspondence as witness. "
              "Exploration, not model checking: the continuous part (noise, thresholds) is sampled.",
         design_ref="DESIGN.md 3.4, 6 (C07)", note=TRUST + "geometries on a bonding or planarity threshold are filtered out by the "
